@@ -28,6 +28,9 @@ class Finding:
         return k
 
 
+CURRENT_CONFIG = None
+
+
 class Run:
     def __init__(self, prop, tier="quick", level="other", technique=""):
         self.prop = prop; self.tier = tier; self.level = level; self.technique = technique
@@ -47,6 +50,11 @@ class Run:
     def fail(self, finding):
         self.obligations += 1
         r = self.by_rule.setdefault(finding.rule, [0, 0]); r[0] += 1
+        # the same construct analysed under several build configurations (thorough tier) is one finding, not one per configuration
+        ident = (finding.rule, finding.function, finding.obj, finding.role, finding.quant, finding.loc)
+        seen = self.__dict__.setdefault("_seen_findings", {})
+        if ident in seen and CURRENT_CONFIG != seen[ident]: return
+        seen.setdefault(ident, CURRENT_CONFIG)
         self.findings.append(finding)
     def check(self, cond, rule, sample=None, finding=None):
         if cond: self.ok(rule, sample)
